@@ -11,8 +11,8 @@
 //! model's answers strategy by strategy (else disagreement).
 use nverif::*;
 use relational_engine::{
-    Column, ColumnType, ColumnarScanOptions, Condition, CursorOptions, RelationalEngine, RelationalError, Row,
-    Schema, Value,
+    Column, ColumnType, ColumnarScanOptions, Condition, CursorOptions, RelationalConfig, RelationalEngine,
+    RelationalError, Row, Schema, Value,
 };
 use serde_json::json;
 use std::cmp::Ordering;
@@ -357,6 +357,8 @@ fn parsed_text(c: &Cond) -> Option<String> {
 enum Step {
     /// values per column; `None` = key omitted from the insert map
     Insert(Vec<Option<Value>>),
+    /// `batch_insert`: all rows are validated before the first one is stored
+    BatchInsert(Vec<Vec<Option<Value>>>),
     Update(Cond, Vec<(ColSel, Value)>),
     Delete(Cond),
     CreateHash(ColSel),
@@ -378,6 +380,10 @@ fn step_text(s: &Step) -> String {
     let ov = |v: &Option<Value>| v.as_ref().map_or("omit".to_string(), tok);
     match s {
         Step::Insert(vs) => format!("ins {}", vs.iter().map(ov).collect::<Vec<_>>().join(" ")),
+        Step::BatchInsert(rows) => format!(
+            "batch_insert {}",
+            rows.iter().map(|vs| format!("({})", vs.iter().map(ov).collect::<Vec<_>>().join(" "))).collect::<Vec<_>>().join(" ")
+        ),
         Step::Update(c, sets) => format!(
             "upd [{}] where {}",
             sets.iter().map(|(c, v)| format!("{}={}", col_name(c), tok(v))).collect::<Vec<_>>().join(","),
@@ -553,7 +559,27 @@ fn gen_case(r: &mut Rng, idx: usize, n_ops: usize, n_queries: usize) -> Case {
     let mut q_left = n_queries;
     for k in 0..n_ops {
         let s = match g.r.below(100) {
-            0..=44 => {
+            40..=44 => {
+                let n = 1 + g.r.below(3) as usize;
+                let mut rows = Vec::new();
+                for _ in 0..n {
+                    if let Step::Insert(vs) = g.insert(&schema) {
+                        rows.push(vs);
+                    }
+                }
+                g.nrows += rows.len() as u64;
+                for vs in &rows {
+                    for (i, v) in vs.iter().enumerate() {
+                        if let Some(v) = v {
+                            if *v != Value::Null && well_typed(schema[i].0, v) && g.pool[i].len() < 24 {
+                                g.pool[i].push(v.clone());
+                            }
+                        }
+                    }
+                }
+                Step::BatchInsert(rows)
+            },
+            0..=39 => {
                 let s = g.insert(&schema);
                 if let Step::Insert(vs) = &s {
                     g.nrows += 1;
@@ -636,10 +662,65 @@ fn q(c: Cond) -> Step {
 }
 
 /// hand-written adversarial scenarios, run first on every invocation
-fn directed_cases() -> Vec<Case> {
+/// a table whose slots cross the 64- and 128-bit word boundaries of the alive / null / result bitmaps (and the
+/// 4-lane chunks of the SIMD filters), with NULLs and deleted slots placed on the boundaries
+fn wide_table_case() -> Case {
+    let i = |x: i64| Value::Int(x);
+    let mut steps = Vec::new();
+    for k in 0..139_i64 {
+        let c0 = if [0, 62, 63, 64, 65, 127, 128, 130, 138].contains(&k) { Value::Null } else { i(k % 7 - 3) };
+        let c1 = Value::Float(if k % 5 == 0 { -0.0 } else { (k % 4) as f64 - 1.5 });
+        steps.push(ins(vec![c0, c1]));
+    }
+    // dead slots on and next to the word boundaries
+    for dead in [1_i64, 63, 64, 66, 126, 128, 129, 137] {
+        steps.push(Step::Delete(Cond::Leaf(Cmp::Eq, ColSel::Id, i(dead))));
+    }
+    steps.push(Step::Update(Cond::Leaf(Cmp::Eq, ColSel::Id, i(65)), vec![(ColSel::Col(0), Value::Null)]));
+    steps.push(Step::Update(Cond::Leaf(Cmp::Eq, ColSel::Id, i(131)), vec![(ColSel::Col(0), i(2))]));
+    for c in [
+        leaf(Cmp::Ne, 0, i(0)),
+        leaf(Cmp::Eq, 0, i(0)),
+        leaf(Cmp::Lt, 0, i(1)),
+        leaf(Cmp::Ge, 0, i(-1)),
+        leaf(Cmp::Eq, 1, Value::Float(0.0)),
+        leaf(Cmp::Lt, 1, Value::Float(0.0)),
+        leaf(Cmp::Gt, 1, Value::Float(-1.0)),
+        and(leaf(Cmp::Ne, 0, i(3)), leaf(Cmp::Gt, 1, Value::Float(-1.0))),
+        or(leaf(Cmp::Eq, 0, i(-3)), leaf(Cmp::Eq, 1, Value::Float(-0.0))),
+        and(leaf(Cmp::Le, 0, i(2)), or(leaf(Cmp::Ne, 0, i(1)), leaf(Cmp::Lt, 1, Value::Float(0.5)))),
+    ] {
+        steps.push(Step::Query(c, 3, 60, 50));
+    }
+    steps.push(Step::CreateHash(ColSel::Col(0)));
+    steps.push(Step::CreateBtree(ColSel::Col(1)));
+    steps.push(Step::Query(leaf(Cmp::Eq, 0, Value::Null), 4, 2, 3));
+    steps.push(Step::Query(and(leaf(Cmp::Ge, 1, Value::Float(-0.0)), leaf(Cmp::Ne, 0, i(0))), 70, 1, 64));
+    Case { name: "wide-table-bitmap-words".into(), schema: vec![(Ty::Int, true), (Ty::Float, false)], steps }
+}
+
+/// more than `PARALLEL_THRESHOLD` (1000) selected rows: `sum` / `avg` / `min` / `max` take their rayon branch.
+/// Integer columns only (small values): every reduction order gives the same f64 sum and the same extreme.
+fn parallel_aggregate_case() -> Case {
+    let i = |x: i64| Value::Int(x);
+    let mut steps = Vec::new();
+    for k in 0..1030_i64 {
+        steps.push(ins(vec![i((k * 37) % 101 - 50), if k % 9 == 0 { Value::Null } else { i(k % 13) }]));
+    }
+    steps.push(Step::Delete(leaf(Cmp::Eq, 0, i(-50))));
+    steps.push(Step::CreateBtree(ColSel::Col(0)));
+    // (limit, offset, batch) chosen so that the aggregated column is c0, c1, c0, `_id`
+    steps.push(Step::Query(Cond::True, 1, 1, 1));
+    steps.push(Step::Query(leaf(Cmp::Ge, 0, i(-49)), 1, 0, 400));
+    steps.push(Step::Query(leaf(Cmp::Ne, 1, i(3)), 2, 1, 1000));
+    steps.push(Step::Query(leaf(Cmp::Lt, 0, i(60)), 2, 0, 512));
+    Case { name: "parallel-aggregates".into(), schema: vec![(Ty::Int, false), (Ty::Int, true)], steps }
+}
+
+fn directed_cases(thorough: bool) -> Vec<Case> {
     let f = |x: f64| Value::Float(x);
     let i = |x: i64| Value::Int(x);
-    vec![
+    let mut cases = vec![
         Case {
             name: "neg-zero-hash".into(),
             schema: vec![(Ty::Float, false)],
@@ -785,7 +866,55 @@ fn directed_cases() -> Vec<Case> {
                 q(leaf(Cmp::Ge, 0, Value::String("".into()))),
             ],
         },
-    ]
+        Case {
+            name: "batch-insert-all-or-nothing".into(),
+            schema: vec![(Ty::Int, false), (Ty::Str, true)],
+            steps: vec![
+                Step::CreateHash(ColSel::Col(0)),
+                Step::CreateBtree(ColSel::Col(1)),
+                Step::BatchInsert(vec![vec![Some(i(1)), Some(Value::String("a".into()))], vec![Some(i(2)), None]]),
+                Step::BatchInsert(vec![vec![Some(i(3)), Some(Value::Null)], vec![None, Some(Value::String("b".into()))], vec![Some(i(4)), None]]),
+                Step::BatchInsert(vec![vec![Some(i(5)), Some(Value::Int(7))]]),
+                Step::BatchInsert(vec![]),
+                q(leaf(Cmp::Eq, 0, i(3))),
+                q(leaf(Cmp::Eq, 1, Value::Null)),
+                Step::BatchInsert(vec![vec![Some(i(3)), Some(Value::String("a".into()))]]),
+                Step::Query(leaf(Cmp::Ge, 1, Value::String("".into())), 0, 1, 1),
+                Step::Query(leaf(Cmp::Eq, 0, i(3)), 2, 0, 2),
+            ],
+        },
+        Case {
+            name: "aggregates-nan-null-bool".into(),
+            schema: vec![(Ty::Float, true), (Ty::Bool, true), (Ty::Int, true)],
+            steps: vec![
+                ins(vec![f(f64::NAN), Value::Bool(true), i(i64::MAX)]),
+                ins(vec![f(1.0), Value::Null, i(i64::MAX)]),
+                ins(vec![Value::Null, Value::Bool(false), Value::Null]),
+                ins(vec![f(-0.0), Value::Bool(true), i(-1)]),
+                ins(vec![f(0.0), Value::Bool(false), i(i64::MIN)]),
+                ins(vec![f(f64::NEG_INFINITY), Value::Bool(true), i(3)]),
+                // aggregated column = (limit + 2*offset + batch) % 5: c0, c1, c2, `_id`, unknown
+                Step::Query(Cond::True, 0, 0, 5),
+                Step::Query(Cond::True, 0, 0, 1),
+                Step::Query(Cond::True, 0, 1, 5),
+                Step::Query(Cond::True, 0, 1, 1),
+                Step::Query(Cond::True, 0, 2, 5),
+                Step::CreateHash(ColSel::Col(1)),
+                Step::CreateBtree(ColSel::Col(0)),
+                Step::Query(leaf(Cmp::Eq, 1, Value::Bool(true)), 4, 3, 3),
+                Step::Query(leaf(Cmp::Le, 0, f(1.0)), 0, 0, 5),
+                Step::Query(leaf(Cmp::Le, 0, f(1.0)), 0, 1, 5),
+                Step::Delete(leaf(Cmp::Eq, 0, f(0.0))),
+                Step::Query(leaf(Cmp::Le, 0, f(1.0)), 0, 0, 5),
+                Step::Query(Cond::True, 0, 1, 5),
+            ],
+        },
+    ];
+    cases.push(wide_table_case());
+    if thorough {
+        cases.push(parallel_aggregate_case());
+    }
+    cases
 }
 
 // ------------------------------------------------------------------ running a case
@@ -899,7 +1028,7 @@ fn classify(strategy: &str, plan: &str, c: &Cond, got: &[u64], want: &[u64], img
                 format!("{site}/{generic}")
             }
         },
-        "limit" | "select_iter" | "streaming" => {
+        "limit" | "select_iter" | "streaming" | "streaming_max" => {
             let site = match strategy {
                 "limit" => "relational_engine.select_with_limit",
                 "select_iter" => "relational_engine.select_iter",
@@ -966,6 +1095,82 @@ fn continue_model_compare(rep: &mut Report, m: &mut Model, is_model_engine: bool
         let w = if strategy == "count" { want_s[0].to_string() } else { show_ids(want_s) };
         rep.compare(&mstream, || json!({"case": input(), "line": line, "note": "model vs oracle (implementation violated the property on this input)"}), &w, &ans);
     }
+}
+
+/// canonical answers of the five aggregates over one column
+struct AggAns {
+    countcol: String,
+    sum: String,
+    avg: String,
+    min: String,
+    max: String,
+}
+
+/// reference aggregates: computed from the full-scan image and the oracle's row set only
+fn agg_reference(acol: &ColSel, want: &[u64], img: &Img) -> AggAns {
+    let vals: Vec<Option<Value>> = img
+        .iter()
+        .filter(|(id, _)| want.contains(id))
+        .map(|(_, vs)| match acol {
+            ColSel::Col(i) => vs.get(*i).cloned(),
+            _ => None, // `_id` is not a stored column, `zz` does not exist
+        })
+        .collect();
+    let countcol = match acol {
+        ColSel::Col(_) => format!("ok {}", vals.iter().filter(|v| matches!(v, Some(x) if *x != Value::Null)).count()),
+        _ => "err col_not_found".to_string(),
+    };
+    let (mut sum, mut cnt) = (0.0_f64, 0u64);
+    for v in vals.iter().flatten() {
+        match v {
+            Value::Int(i) => {
+                sum += *i as f64;
+                cnt += 1;
+            },
+            Value::Float(f) => {
+                sum += *f;
+                cnt += 1;
+            },
+            _ => {},
+        }
+    }
+    let extreme = |want: Ordering| -> String {
+        let mut cur: Option<Value> = None;
+        for v in vals.iter().flatten() {
+            if *v == Value::Null {
+                continue;
+            }
+            cur = match cur {
+                None => Some(v.clone()),
+                Some(c) => if h_cmp(v, &c) == Some(want) { Some(v.clone()) } else { Some(c) },
+            };
+        }
+        cur.map_or("none".to_string(), |v| tok(&v))
+    };
+    AggAns {
+        countcol,
+        sum: tok(&Value::Float(sum)),
+        avg: if cnt == 0 { "none".to_string() } else { tok(&Value::Float(sum / cnt as f64)) },
+        min: extreme(Ordering::Less),
+        max: extreme(Ordering::Greater),
+    }
+}
+
+/// the model answers `sum` with the list of addends; the f64 additions are done here, in the model's order
+fn fold_terms(terms: &str) -> (String, String) {
+    let (mut sum, mut cnt) = (0.0_f64, 0u64);
+    if terms != "-" {
+        for t in terms.split(',') {
+            if let Some(rest) = t.strip_prefix('i') {
+                sum += rest.parse::<i64>().unwrap_or(0) as f64;
+                cnt += 1;
+            } else if let Some(rest) = t.strip_prefix('f') {
+                sum += f64::from_bits(u64::from_str_radix(rest, 16).unwrap_or(0));
+                cnt += 1;
+            }
+        }
+    }
+    (tok(&Value::Float(sum)), if cnt == 0 { "none".to_string() } else { tok(&Value::Float(sum / cnt as f64)) })
 }
 
 struct Stats {
@@ -1048,6 +1253,66 @@ fn run_case(case: &Case, rep: &mut Report, m: &mut Model, text_budget: &mut u64)
                     rep.hit(&format!("op.insert.{}", &s0[4..]));
                 }
             },
+            Step::BatchInsert(rows) => {
+                rep.hit("op.batch_insert");
+                let before = image(&e0);
+                let maps: Vec<HashMap<String, Value>> = rows
+                    .iter()
+                    .map(|vs| vs.iter().enumerate().filter_map(|(i, v)| v.clone().map(|v| (format!("c{i}"), v))).collect())
+                    .collect();
+                let r0 = e0.batch_insert("t", maps.clone());
+                let ra = eall.batch_insert("t", maps.clone());
+                let rm = em.batch_insert("t", maps);
+                let show = |r: &Result<Vec<u64>, RelationalError>| match r {
+                    Ok(ids) => format!("ok {}", show_ids(ids)),
+                    Err(e) => format!("err {}", err_class(e)),
+                };
+                let (s0, sa, sm) = (show(&r0), show(&ra), show(&rm));
+                if s0 != sa || s0 != sm {
+                    viol(rep, "relational_engine.batch_insert/index_changes_outcome", &format!("batch_insert answered {s0} without index, {sa} with all indexes, {sm} with the generated indexes"), input());
+                }
+                // oracle: every row valid => all appended with fresh consecutive ids; otherwise nothing stored
+                let all_valid = rows.iter().all(|vs| {
+                    vs.iter().zip(case.schema.iter()).all(|(v, (ty, nullable))| match v {
+                        None | Some(Value::Null) => *nullable,
+                        Some(v) => well_typed(*ty, v),
+                    })
+                });
+                let mut expect = before.clone();
+                if all_valid {
+                    for (k, vs) in rows.iter().enumerate() {
+                        expect.push((total_inserted + 1 + k as u64, vs.iter().map(|v| v.clone().unwrap_or(Value::Null)).collect()));
+                    }
+                }
+                let exp = show_img(&expect);
+                for (name, img, ok) in [("no_index", image(&e0), r0.is_ok()), ("all_indexes", image(eall), ra.is_ok()), ("generated_indexes", image(&em), rm.is_ok())] {
+                    if ok != all_valid {
+                        viol(rep, "relational_engine.batch_insert/wrong_outcome", &format!("batch_insert ({name}) {} although {}", if ok { "succeeded" } else { "failed" }, if all_valid { "every row is valid" } else { "a row is invalid" }), input());
+                    } else if show_img(&img) != exp {
+                        viol(rep, "relational_engine.batch_insert/not_all_or_nothing", &format!("after batch_insert ({name}) the table is {} but 'all rows appended or nothing stored' gives {exp}", show_img(&img)), input());
+                    }
+                }
+                let line = format!(
+                    "bins {} {}",
+                    rows.len(),
+                    rows.iter().flat_map(|vs| vs.iter().map(|v| v.as_ref().map_or("n".to_string(), tok))).collect::<Vec<_>>().join(" ")
+                );
+                let ma = m.ask(&line);
+                rep.case("ops", None);
+                rep.compare("ops", || json!({"case": input(), "line": line}), &sm, &ma);
+                let md = m.ask("dump");
+                rep.case("image", None);
+                rep.compare("image", || json!({"case": input(), "after": line}), &show_img(&image(&em)), &md);
+                if let Ok(ids) = &r0 {
+                    if !ids.is_empty() {
+                        st.state_changes += 1;
+                    }
+                    total_inserted += ids.len() as u64;
+                    rep.hit("op.batch_insert.ok");
+                } else {
+                    rep.hit(&format!("op.batch_insert.{}", &s0[4..]));
+                }
+            },
             Step::Update(c, sets) => {
                 rep.hit("op.update");
                 let before = image(&e0);
@@ -1062,7 +1327,7 @@ fn run_case(case: &Case, rep: &mut Report, m: &mut Model, text_budget: &mut u64)
                         sets.iter().map(|(c, v)| legacy_value(v).filter(|s| !s.contains(',') && !s.contains('=')).map(|s| format!("{}={}", col_name(c), s))).collect::<Option<Vec<_>>>(),
                     ) {
                         if !setv.is_empty() {
-                            *text_budget -= 1;
+                            *text_budget = text_budget.saturating_sub(1);
                             let stmt = format!("UPDATE t SET {} WHERE {}", setv.join(", "), w);
                             match router.execute(&stmt) {
                                 Ok(query_router::QueryResult::Count(n)) => {
@@ -1148,7 +1413,7 @@ fn run_case(case: &Case, rep: &mut Report, m: &mut Model, text_budget: &mut u64)
                 let mut ra: Option<usize> = None;
                 if *text_budget > 0 {
                     if let Some(w) = legacy_text(c) {
-                        *text_budget -= 1;
+                        *text_budget = text_budget.saturating_sub(1);
                         match router.execute(&format!("DELETE t WHERE {w}")) {
                             Ok(query_router::QueryResult::Count(n)) => {
                                 rep.hit("text.delete");
@@ -1251,6 +1516,14 @@ fn run_case(case: &Case, rep: &mut Report, m: &mut Model, text_budget: &mut u64)
                 rep.compare("spec", || json!({"case": input(), "cond": cm}), &show_ids(&want), &spec_model);
 
                 let page = |ids: &[u64], l: usize, o: usize| -> Vec<u64> { ids.iter().skip(o).take(l).copied().collect() };
+                // derived parameters (kept out of `Step::Query` so that old replays stay valid)
+                let max_rows = (*limit * 2 + *offset) % 7;
+                let acol = match (*limit + 2 * *offset + *batch) % (case.schema.len() + 2) {
+                    k if k < case.schema.len() => ColSel::Col(k),
+                    k if k == case.schema.len() => ColSel::Id,
+                    _ => ColSel::Unknown,
+                };
+                let agg_want = agg_reference(&acol, &want, &img);
                 let engines: [(&str, &RelationalEngine, Vec<String>, Vec<String>); 3] = [
                     ("no_index", &e0, vec![], vec![]),
                     ("all_indexes", eall, all_cols.clone(), all_cols.clone()),
@@ -1282,7 +1555,7 @@ fn run_case(case: &Case, rep: &mut Report, m: &mut Model, text_budget: &mut u64)
                         "select_iter",
                         e.select_iter("t", ec.clone(), opts).map_err(|e| e.to_string()).and_then(|cur| cur.map(|r| r.map(|r| r.id).map_err(|e| e.to_string())).collect::<Result<Vec<u64>, String>>()),
                         it_want,
-                        None,
+                        Some(format!("q iter {} {offset} {cm}", if *limit > 0 { limit.to_string() } else { "-".to_string() })),
                     ));
                     runs.push((
                         "streaming",
@@ -1290,6 +1563,17 @@ fn run_case(case: &Case, rep: &mut Report, m: &mut Model, text_budget: &mut u64)
                         want.clone(),
                         Some(format!("q cursor {batch} {cm}")),
                     ));
+                    // the derived checks (cursor with max_rows, aggregates) run on the model-mirrored engine for every
+                    // query and on the other two engines for every second query (quick-tier time budget)
+                    let sampled = is_model_engine || si % 2 == 0;
+                    if sampled {
+                    runs.push((
+                        "streaming_max",
+                        e.select_streaming("t", ec.clone()).with_batch_size(*batch).with_max_rows(max_rows).map(|r| r.map(|r| r.id).map_err(|e| e.to_string())).collect::<Result<Vec<u64>, String>>(),
+                        want.iter().take(max_rows).copied().collect(),
+                        Some(format!("q cursorm {batch} {max_rows} {cm}")),
+                    ));
+                    }
                     // what plain `select` answered on this engine: a derived strategy that merely repeats a wrong
                     // `select` answer is attributed to `select`'s class, not reported a second time
                     let sel_got: Option<Vec<u64>> = runs[0].1.as_ref().ok().cloned();
@@ -1310,6 +1594,7 @@ fn run_case(case: &Case, rep: &mut Report, m: &mut Model, text_budget: &mut u64)
                                             "count" => ids[0] == sg.len() as u64,
                                             "limit" => *ids == page(sg, *limit, *offset),
                                             "select_iter" => *ids == if *limit > 0 { page(sg, *limit, *offset) } else { sg.iter().skip(*offset).copied().collect() },
+                                            "streaming_max" => *ids == sg.iter().take(max_rows).copied().collect::<Vec<u64>>(),
                                             _ => ids == sg,
                                         }
                                     });
@@ -1358,11 +1643,138 @@ fn run_case(case: &Case, rep: &mut Report, m: &mut Model, text_budget: &mut u64)
                             }
                         }
                     }
+                    // aggregates over the same condition: count_column has its own three paths, the others fold
+                    // over `select`
+                    if !sampled {
+                        continue;
+                    }
+                    let aname = col_name(&acol);
+                    let got = AggAns {
+                        countcol: match e.count_column("t", &aname, ec.clone()) {
+                            Ok(n) => format!("ok {n}"),
+                            Err(er) => format!("err {}", err_class(&er)),
+                        },
+                        sum: e.sum("t", &aname, ec.clone()).map_or_else(|er| format!("error {er}"), |x| tok(&Value::Float(x))),
+                        avg: e.avg("t", &aname, ec.clone()).map_or_else(|er| format!("error {er}"), |x| x.map_or("none".to_string(), |x| tok(&Value::Float(x)))),
+                        min: e.min("t", &aname, ec.clone()).map_or_else(|er| format!("error {er}"), |x| x.map_or("none".to_string(), |x| tok(&x))),
+                        max: e.max("t", &aname, ec.clone()).map_or_else(|er| format!("error {er}"), |x| x.map_or("none".to_string(), |x| tok(&x))),
+                    };
+                    rep.case(&format!("agg.{ename}"), None);
+                    rep.hit(&format!("agg.col.{}", match acol { ColSel::Col(_) => "schema", ColSel::Id => "_id", ColSel::Unknown => "unknown" }));
+                    let select_wrong = sel_got.as_ref().is_some_and(|sg| *sg != want);
+                    let mut agg_flagged = false;
+                    for (name, g, w, via_select) in [
+                        ("count_column", &got.countcol, &agg_want.countcol, false),
+                        ("sum", &got.sum, &agg_want.sum, true),
+                        ("avg", &got.avg, &agg_want.avg, true),
+                        ("min", &got.min, &agg_want.min, true),
+                        ("max", &got.max, &agg_want.max, true),
+                    ] {
+                        if g != w {
+                            agg_flagged = true;
+                            if via_select && select_wrong {
+                                rep.hit(&format!("inherits_select_defect.{name}"));
+                            } else {
+                                viol(rep, &format!("relational_engine.{name}/not_over_matching_rows"), &format!("{name}({aname}) on engine '{ename}' (plan {plan}) answered {g} but over exactly the matching rows it is {w}"), json!({"case": input(), "aggregate": name, "column": aname, "engine": ename, "table": show_img(&img)}));
+                            }
+                        }
+                    }
+                    if is_model_engine {
+                        let mcol = col_model(&acol);
+                        // one line: countcol=<..> terms=<..> min=<..> max=<..>
+                        let ma = m.ask(&format!("q aggs {mcol} {cm}"));
+                        let field = |k: &str| -> String {
+                            ma.split(&format!("{k}=")).nth(1).map_or(String::new(), |r| {
+                                let end = [" terms=", " min=", " max="].iter().filter_map(|t| r.find(t)).min().unwrap_or(r.len());
+                                r[..end].to_string()
+                            })
+                        };
+                        let (m_cc, m_terms, m_min, m_max) = (field("countcol"), field("terms"), field("min"), field("max"));
+                        let (m_sum, m_avg) = fold_terms(&m_terms);
+                        let mans = format!("countcol={m_cc} sum={m_sum} avg={m_avg} min={m_min} max={m_max}");
+                        rep.case("model.agg", None);
+                        let imp = if agg_flagged { &agg_want } else { &got };
+                        rep.compare("model.agg", || json!({"case": input(), "column": aname, "cond": cm, "terms": m_terms, "note": if agg_flagged { "model vs oracle (implementation violated the property on this input)" } else { "" }}), &format!("countcol={} sum={} avg={} min={} max={}", imp.countcol, imp.sum, imp.avg, imp.min, imp.max), &mans);
+                    }
                 }
                 // the same statement as text through the router (engine with every index)
                 if *text_budget > 0 {
+                    // OFFSET / LIMIT and aggregates as text
+                    if *limit > 0 {
+                        if let Some(w) = parsed_text(c) {
+                            *text_budget = text_budget.saturating_sub(1);
+                            let stmt = format!("SELECT * FROM t WHERE {w} LIMIT {limit} OFFSET {offset}");
+                            match router.execute_parsed(&stmt) {
+                                Ok(query_router::QueryResult::Rows(rows)) => {
+                                    rep.case("router_parsed_window", None);
+                                    rep.hit("text.select_parsed_window");
+                                    let ids = row_ids(&rows);
+                                    let w_ids = page(&want, *limit, *offset);
+                                    let inherited = eall_select.as_ref().is_some_and(|sg| *sg != want && ids == page(sg, *limit, *offset));
+                                    if ids != w_ids && inherited {
+                                        rep.hit("inherits_select_defect.router_parsed_window");
+                                    } else if ids != w_ids {
+                                        viol(rep, "query_router.exec_select/wrong_window", &format!("`{stmt}` returned {} but the window of the matching rows is {}", show_ids(&ids), show_ids(&w_ids)), json!({"case": input(), "statement": stmt, "table": show_img(&img)}));
+                                    } else {
+                                        let ma = m.ask(&format!("q router {limit} {offset} {cm}"));
+                                        rep.case("model.router", None);
+                                        rep.compare("model.router", || json!({"case": input(), "statement": stmt}), &show_ids(&ids), &ma);
+                                    }
+                                },
+                                Ok(_) => rep.hit("text.select_parsed_window_other_result"),
+                                Err(_) => rep.hit("text.select_parsed_window_unsupported"),
+                            }
+                        }
+                        if let Some(w) = legacy_text(c) {
+                            *text_budget = text_budget.saturating_sub(1);
+                            let stmt = format!("SELECT * FROM t WHERE {w} LIMIT {limit}");
+                            match router.execute(&stmt) {
+                                Ok(query_router::QueryResult::Rows(rows)) => {
+                                    rep.case("router_text_limit", None);
+                                    rep.hit("text.select_limit");
+                                    let ids = row_ids(&rows);
+                                    let w_ids = page(&want, *limit, 0);
+                                    let inherited = eall_select.as_ref().is_some_and(|sg| *sg != want && ids == page(sg, *limit, 0));
+                                    if ids != w_ids && inherited {
+                                        rep.hit("inherits_select_defect.router_text_limit");
+                                    } else if ids != w_ids {
+                                        viol(rep, "query_router.execute/wrong_window", &format!("`{stmt}` returned {} but the first {limit} matching rows are {}", show_ids(&ids), show_ids(&w_ids)), json!({"case": input(), "statement": stmt, "table": show_img(&img)}));
+                                    } else {
+                                        let ma = m.ask(&format!("q routerl {limit} {cm}"));
+                                        rep.case("model.router", None);
+                                        rep.compare("model.router", || json!({"case": input(), "statement": stmt}), &show_ids(&ids), &ma);
+                                    }
+                                },
+                                Ok(_) => rep.hit("text.select_limit_other_result"),
+                                Err(_) => rep.hit("text.select_limit_unsupported"),
+                            }
+                        }
+                    }
+                    if let (ColSel::Col(_), Some(w)) = (&acol, parsed_text(c)) {
+                        *text_budget = text_budget.saturating_sub(1);
+                        let a = col_name(&acol);
+                        let stmt = format!("SELECT COUNT(*), COUNT({a}), SUM({a}), AVG({a}), MIN({a}), MAX({a}) FROM t WHERE {w}");
+                        match router.execute_parsed(&stmt) {
+                            Ok(query_router::QueryResult::Rows(rows)) if rows.len() == 1 && rows[0].values.len() == 6 => {
+                                rep.case("router_parsed_agg", None);
+                                rep.hit("text.aggregates");
+                                let v = &rows[0].values;
+                                let opt = |x: &Value| if *x == Value::Null { "none".to_string() } else { tok(x) };
+                                let got = format!("count={} countcol=ok {} sum={} avg={} min={} max={}", tok(&v[0].1).trim_start_matches('i'), tok(&v[1].1).trim_start_matches('i'), tok(&v[2].1), opt(&v[3].1), opt(&v[4].1), opt(&v[5].1));
+                                let exp = format!("count={} countcol={} sum={} avg={} min={} max={}", want.len(), agg_want.countcol, agg_want.sum, agg_want.avg, agg_want.min, agg_want.max);
+                                let select_wrong = eall_select.as_ref().is_some_and(|sg| *sg != want);
+                                if got != exp && select_wrong {
+                                    rep.hit("inherits_select_defect.router_parsed_agg");
+                                } else if got != exp {
+                                    viol(rep, "query_router.aggregate/not_over_matching_rows", &format!("`{stmt}` returned {got} but over exactly the matching rows it is {exp}"), json!({"case": input(), "statement": stmt, "table": show_img(&img)}));
+                                }
+                            },
+                            Ok(_) => rep.hit("text.aggregates_other_result"),
+                            Err(_) => rep.hit("text.aggregates_unsupported"),
+                        }
+                    }
                     if let Some(w) = legacy_text(c) {
-                        *text_budget -= 1;
+                        *text_budget = text_budget.saturating_sub(1);
                         let stmt = format!("SELECT * FROM t WHERE {w}");
                         match router.execute(&stmt) {
                             Ok(query_router::QueryResult::Rows(rows)) => {
@@ -1381,7 +1793,7 @@ fn run_case(case: &Case, rep: &mut Report, m: &mut Model, text_budget: &mut u64)
                         }
                     }
                     if let Some(w) = parsed_text(c) {
-                        *text_budget -= 1;
+                        *text_budget = text_budget.saturating_sub(1);
                         let stmt = format!("SELECT * FROM t WHERE {w}");
                         match router.execute_parsed(&stmt) {
                             Ok(query_router::QueryResult::Rows(rows)) => {
@@ -1450,6 +1862,194 @@ fn value_semantics(rep: &mut Report, m: &mut Model, r: &mut Rng, n: usize) {
     }
 }
 
+// ------------------------------------------------------------------ max_condition_depth
+
+fn cond_depth(c: &Cond) -> usize {
+    match c {
+        Cond::And(a, b) | Cond::Or(a, b) => 1 + cond_depth(a).max(cond_depth(b)),
+        _ => 0,
+    }
+}
+
+/// a condition tree of exactly the given nesting depth over small integer columns
+fn deep_cond(r: &mut Rng, depth: u32, ncols: usize) -> Cond {
+    if depth == 0 {
+        if r.chance(1, 8) {
+            return Cond::True;
+        }
+        let op = *r.pick(&[Cmp::Eq, Cmp::Ne, Cmp::Lt, Cmp::Le, Cmp::Gt, Cmp::Ge]);
+        let col = if r.chance(1, 10) { ColSel::Id } else { ColSel::Col(r.below(ncols as u64) as usize) };
+        let v = if r.chance(1, 10) { Value::Null } else { Value::Int(r.range(0, 3)) };
+        return Cond::Leaf(op, col, v);
+    }
+    let deep = deep_cond(r, depth - 1, ncols);
+    let other_depth = r.below(u64::from(depth)) as u32;
+    let other = deep_cond(r, other_depth, ncols);
+    let (a, b) = if r.chance(1, 2) { (deep, other) } else { (other, deep) };
+    if r.chance(1, 2) { and(a, b) } else { or(a, b) }
+}
+
+/// `Condition::evaluate_with_depth` (the function every row path of the engine calls) against the model's
+/// `evalDepth`, and against the reference semantics: an `Ok` answer must be `evaluate`'s answer, and a tree
+/// within the limit must not fail.
+fn depth_rows(rep: &mut Report, m: &mut Model, r: &mut Rng, n: usize) {
+    for _ in 0..n {
+        let depth = r.below(7) as u32;
+        let c = deep_cond(r, depth, 2);
+        let mx = r.below(7) as usize;
+        let d = if r.chance(3, 4) { 0 } else { r.below(3) as usize };
+        let id = 1 + r.below(3);
+        let vals: Vec<Value> = (0..2).map(|_| if r.chance(1, 6) { Value::Null } else { Value::Int(r.range(0, 3)) }).collect();
+        let row = Row { id, values: vals.iter().enumerate().map(|(i, v)| (format!("c{i}"), v.clone())).collect() };
+        let got = to_engine(&c).evaluate_with_depth(&row, d, mx);
+        let imp = match &got {
+            Ok(b) => format!("ok {}", u8::from(*b)),
+            Err(RelationalError::ConditionTooDeep { .. }) => "err too_deep".to_string(),
+            Err(e) => format!("error {e}"),
+        };
+        let line = format!("evald {mx} {d} {id} 2 {} {}", vals.iter().map(tok).collect::<Vec<_>>().join(" "), to_model(&c));
+        let ma = m.ask(&line);
+        rep.case("depth_rows", Some(&line));
+        rep.hit(&format!("depth_rows.{}", if got.is_ok() { "ok" } else { "too_deep" }));
+        rep.compare("depth_rows", || json!({"line": line}), &imp, &ma);
+        let reference = h_eval(&c, id, &vals);
+        match got {
+            Ok(b) if b != reference => viol(rep, "relational_engine.evaluate_with_depth/differs_from_evaluate", &format!("evaluate_with_depth answered {b}, the condition is {reference} on this row"), json!({"line": line})),
+            Err(_) if d + cond_depth(&c) <= mx => viol(rep, "relational_engine.evaluate_with_depth/spurious_too_deep", "ConditionTooDeep although the tree is within max_depth", json!({"line": line})),
+            _ => {},
+        }
+    }
+}
+
+/// engines configured with a small `max_condition_depth`: every strategy either fails with ConditionTooDeep or
+/// returns exactly the matching rows; UPDATE / DELETE either fail before touching anything or do their job
+#[allow(clippy::too_many_lines)]
+fn depth_engine(rep: &mut Report, m: &mut Model, r: &mut Rng, n_cases: usize) {
+    for k in 0..n_cases {
+        let mx = r.below(3) as usize;
+        let e = RelationalEngine::with_config(RelationalConfig::default().with_max_condition_depth(mx));
+        e.create_table("t", Schema::new(vec![Column::new("c0", ColumnType::Int), Column::new("c1", ColumnType::Int).nullable()])).expect("create_table");
+        assert_eq!(m.ask("new i0 i1"), "ok");
+        let mut script: Vec<String> = vec![format!("max_condition_depth={mx}")];
+        let nrows = 2 + r.below(5);
+        for _ in 0..nrows {
+            let v0 = Value::Int(r.range(0, 3));
+            let v1 = if r.chance(1, 4) { Value::Null } else { Value::Int(r.range(0, 3)) };
+            let _ = e.insert("t", HashMap::from([("c0".to_string(), v0.clone()), ("c1".to_string(), v1.clone())]));
+            let line = format!("ins {} {}", tok(&v0), tok(&v1));
+            m.ask(&line);
+            script.push(line);
+        }
+        if r.chance(1, 2) {
+            let _ = e.create_index("t", "c0");
+            m.ask("cidx h c0");
+            script.push("cidx h c0".into());
+        }
+        if r.chance(1, 2) {
+            let _ = e.create_btree_index("t", "c1");
+            m.ask("cidx o c1");
+            script.push("cidx o c1".into());
+        }
+        for _ in 0..8 {
+            let depth = r.below(mx as u64 + 3) as u32;
+            let c = deep_cond(r, depth, 2);
+            let (ec, cm) = (to_engine(&c), to_model(&c));
+            let within = cond_depth(&c) <= mx;
+            let img = image_or_empty(&e);
+            let want = oracle_ids(&c, &img);
+            let (limit, offset) = (r.below(4) as usize, r.below(3) as usize);
+            let op = r.below(10);
+            let too_deep = |er: &RelationalError| matches!(er, RelationalError::ConditionTooDeep { .. });
+            let ids_ans = |res: Result<Vec<Row>, RelationalError>| -> (String, Option<Vec<u64>>) {
+                match res {
+                    Ok(rows) => (show_ids(&row_ids(&rows)), Some(row_ids(&rows))),
+                    Err(er) if too_deep(&er) => ("err too_deep".to_string(), None),
+                    Err(er) => (format!("error {er}"), None),
+                }
+            };
+            // (operation name, model line, engine answer, rows the oracle expects when the answer is Ok)
+            let (name, line, imp, ok_ids, want_ids): (&str, String, String, Option<Vec<u64>>, Vec<u64>) = match op {
+                0 | 1 => {
+                    let (a, i) = ids_ans(e.select("t", ec));
+                    ("select", format!("qd {mx} select {cm}"), a, i, want.clone())
+                },
+                2 => {
+                    let (a, i) = match e.count("t", ec) {
+                        Ok(n) => (n.to_string(), Some(vec![n])),
+                        Err(er) if too_deep(&er) => ("err too_deep".to_string(), None),
+                        Err(er) => (format!("error {er}"), None),
+                    };
+                    ("count", format!("qd {mx} count {cm}"), a, i, vec![want.len() as u64])
+                },
+                3 | 4 => {
+                    let (a, i) = ids_ans(e.select_with_limit("t", ec, limit, offset));
+                    ("limit", format!("qd {mx} limit {limit} {offset} {cm}"), a, i, want.iter().skip(offset).take(limit).copied().collect())
+                },
+                5 | 6 => {
+                    let (a, i) = ids_ans(e.select_columnar("t", ec, ColumnarScanOptions { projection: None, prefer_columnar: true }));
+                    ("columnar", format!("qd {mx} columnar {cm}"), a, i, want.clone())
+                },
+                7 => {
+                    let res = e.delete_rows("t", ec);
+                    let a = match &res {
+                        Ok(n) => format!("ok {n}"),
+                        Err(er) if too_deep(er) => "err too_deep".to_string(),
+                        Err(er) => format!("error {er}"),
+                    };
+                    let after = image_or_empty(&e);
+                    let expect: Img = if res.is_ok() { img.iter().filter(|(id, _)| !want.contains(id)).cloned().collect() } else { img.clone() };
+                    if show_img(&after) != show_img(&expect) {
+                        viol(rep, "relational_engine.delete/touched_wrong_rows", &format!("DELETE under max_condition_depth={mx} answered {a}; table {} expected {}", show_img(&after), show_img(&expect)), json!({"script": script, "cond": cm}));
+                    }
+                    ("delete", format!("deld {mx} {cm}"), a, res.ok().map(|n| vec![n as u64]), vec![want.len() as u64])
+                },
+                _ => {
+                    let nv = Value::Int(r.range(0, 3));
+                    let res = e.update("t", ec, HashMap::from([("c1".to_string(), nv.clone())]));
+                    let a = match &res {
+                        Ok(n) => format!("ok {n}"),
+                        Err(er) if too_deep(er) => "err too_deep".to_string(),
+                        Err(er) => format!("error {er}"),
+                    };
+                    let after = image_or_empty(&e);
+                    let mut expect = img.clone();
+                    if res.is_ok() {
+                        for (id, vals) in &mut expect {
+                            if want.contains(id) {
+                                vals[1] = nv.clone();
+                            }
+                        }
+                    }
+                    if show_img(&after) != show_img(&expect) {
+                        viol(rep, "relational_engine.update/touched_wrong_rows", &format!("UPDATE under max_condition_depth={mx} answered {a}; table {} expected {}", show_img(&after), show_img(&expect)), json!({"script": script, "cond": cm}));
+                    }
+                    ("update", format!("updd {mx} 1 c1 {} {cm}", tok(&nv)), a, res.ok().map(|n| vec![n as u64]), vec![want.len() as u64])
+                },
+            };
+            script.push(line.clone());
+            let ma = m.ask(&line);
+            let ma = ma.split_once(" | ").map_or(ma.clone(), |(a, _)| a.to_string());
+            rep.case("depth_engine", Some(&format!("{k}:{line}")));
+            rep.hit(&format!("depth_engine.{name}.{}", if ok_ids.is_some() { "ok" } else { "too_deep" }));
+            rep.compare("depth_engine", || json!({"script": script, "line": line}), &imp, &ma);
+            match &ok_ids {
+                Some(ids) if *ids != want_ids => viol(rep, &format!("relational_engine.{name}/wrong_rows_under_depth_limit"), &format!("{name} under max_condition_depth={mx} answered {imp}, exactly {} satisfy the condition", show_ids(&want_ids)), json!({"script": script, "line": line})),
+                None if within => viol(rep, &format!("relational_engine.{name}/spurious_too_deep"), &format!("{name} failed although the condition tree (depth {}) is within max_condition_depth={mx}", cond_depth(&c)), json!({"script": script, "line": line})),
+                _ => {},
+            }
+            if matches!(op, 7..) {
+                let md = m.ask("dump");
+                rep.case("image", None);
+                rep.compare("image", || json!({"script": script, "after": line}), &show_img(&image_or_empty(&e)), &md);
+            }
+        }
+    }
+}
+
+fn image_or_empty(e: &RelationalEngine) -> Img {
+    image(e)
+}
+
 /// One store, two engine objects (what `QueryRouter::with_shared_store` + a second `with_store` gives).
 /// Outside the op-sequence quantifier of the property; reported as an observation, not a violation.
 fn reopen_probe(rep: &mut Report) {
@@ -1476,15 +2076,17 @@ fn main() {
     let mut rep = Report::new(
         "non-trivial case = op sequence with >= 1 successful state change and >= 1 query whose expected row set is non-empty; \
          every query runs select / select_with_limit / count / select_columnar / select_iter / streaming cursor on three engines \
-         (no index, every index, generated index set) plus router text for a subset",
+         (no index, every index, generated index set) plus router text for a subset; the cursor with max_rows and \
+         count_column / sum / avg / min / max run on the generated-index engine for every query and on the other two \
+         for every second query",
     );
     let root = Rng::new(args.seed);
     let mut m = Model::spawn(&args.driver);
     let (n_cases, n_ops, n_queries) = if args.thorough { (1500, 60, 30) } else { (260, 40, 22) };
-    let mut text_budget: u64 = if args.thorough { 40_000 } else { 6_000 };
+    let mut text_budget: u64 = if args.thorough { 75_000 } else { 11_000 };
 
     value_semantics(&mut rep, &mut m, &mut root.fork("values"), if args.thorough { 20_000 } else { 4_000 });
-    for case in directed_cases() {
+    for case in directed_cases(args.thorough) {
         rep.hit("case.directed");
         run_case(&case, &mut rep, &mut m, &mut text_budget);
     }
@@ -1494,12 +2096,15 @@ fn main() {
         rep.hit("case.random");
         run_case(&case, &mut rep, &mut m, &mut text_budget);
     }
+    depth_rows(&mut rep, &mut m, &mut root.fork("depth_rows"), if args.thorough { 20_000 } else { 2_500 });
+    depth_engine(&mut rep, &mut m, &mut root.fork("depth_engine"), if args.thorough { 2_000 } else { 120 });
     reopen_probe(&mut rep);
     rep.expected_branches = ["br.select.hash", "br.select.btree", "br.select.scan", "br.columnar.vec", "br.columnar.scan", "br.columnar.hash", "br.columnar.btree"]
         .iter()
         .map(|s| (*s).to_string())
         .collect();
     rep.note("hash buckets of strings/bytes are modelled by content (DefaultHasher collisions only enlarge a bucket; every index hit is re-checked)");
-    rep.note("JSON columns, joins, aggregates other than count, max_condition_depth (64) are not modelled; condition trees are generated with depth <= 3");
+    rep.note("JSON columns, joins, GROUP BY / DISTINCT, ORDER BY, ALTER TABLE are not modelled; condition trees of the table streams have depth <= 3, the depth_* streams use depth <= 6 under max_condition_depth <= 6");
+    rep.note("sum / avg: the model gives the list of addends in order, the f64 additions are done by the harness; the rayon branch (>= 1000 selected rows) is exercised on integer columns only (thorough tier)");
     rep.write(&args.out);
 }
